@@ -401,10 +401,10 @@ Definition key_to_url_as_found (S key : string) : res (option string) :=
   end.
 
 Definition relative_to_full_path_as_found (S url : string) : res (option string) :=
-  key_to_url_as_found S (trim_end_matches MD url).
+  key_to_url_as_found S (strip_md url).      (* server.rs:61-66 `format!("{}.md", strip_md(url))` *)
 
 Definition name_to_url_as_found (S key : string) : res (option string) :=
-  join_result "name_to_url: unwrap" (url_parse (S +++ key +++ MD)).
+  join_result "name_to_url: unwrap" (url_parse (S +++ strip_md key +++ MD)).
 
 Definition url_to_key_as_found (S u : string) : string :=
   key_from_file_name (trim_start_matches S u).
@@ -445,9 +445,9 @@ Definition has_md_extension (name : string) : bool :=
   ends_with MD name && negb (String.eqb name MD).
 
 (* key of the file <dirs>/<name>: directory names joined by `/`, then the file name without
-   every trailing `.md` (`to_file_name`) *)
+   its `.md` (`to_file_name`, fs.rs:119-122: `strip_md`, one extension) *)
 Definition loader_key (dirs : list string) (name : string) : string :=
-  join SEPS (dirs ++ [trim_end_matches MD name]).
+  join SEPS (dirs ++ [strip_md name]).
 
 (* a note given as dirs ++ [stem], stored as <dirs>/<stem>.md *)
 Definition disk_key (comps : list string) : string :=
@@ -506,9 +506,7 @@ Definition base_drive (base : string) : bool :=
   | _ => false
   end.
 
-(* K5: the stem itself ends with `.md` (x.md.md shares the key of x.md) *)
-Definition stem_md (comps : list string) : bool :=
-  match rev comps with stem :: _ => ends_with MD stem | [] => false end.
+(* (K5, a stem that itself ends with `.md` - x.md.md shared the key of x.md - is repaired: finding F-C14-5) *)
 
 (* K6: a URI whose text repeats the server prefix (`trim_start_matches` strips every copy) *)
 Definition prefix_repeats (S u : string) : bool :=
